@@ -1,13 +1,9 @@
-package composite
+package decorator
 
-// Harness of property C20 (composite side): drives the REAL
-// Metacontroller.Reconcile of this package through histories of create /
-// spec-changing update / no-op update / delete events of CompositeController
-// objects, over the simulated API server and the scripted hook transport,
-// and records what happened after every event.
-//
-// The part between "generic" markers is flavour independent and is copied
-// verbatim into the decorator package's zz_verif_c20d_world_test.go.
+// Harness of property C20 (decorator side), flavour independent part: a
+// verbatim copy of the "generic" section of
+// harness/inpkg/composite/zz_verif_c20_test.go, preceded by the few world
+// helpers of harness/inpkg/composite/zz_verif_world_test.go it relies on.
 
 import (
 	"context"
@@ -27,215 +23,82 @@ import (
 	"unsafe"
 
 	"github.com/go-logr/logr"
-	apiextensionsv1 "k8s.io/apiextensions-apiserver/pkg/apis/apiextensions/v1"
-	apierrors "k8s.io/apimachinery/pkg/api/errors"
 	metav1 "k8s.io/apimachinery/pkg/apis/meta/v1"
 	"k8s.io/apimachinery/pkg/runtime/schema"
-	"k8s.io/apimachinery/pkg/types"
 	k8sjson "k8s.io/apimachinery/pkg/util/json"
 	utilruntime "k8s.io/apimachinery/pkg/util/runtime"
-	"k8s.io/client-go/tools/cache"
-	"sigs.k8s.io/controller-runtime/pkg/client"
-	"sigs.k8s.io/controller-runtime/pkg/reconcile"
+	"k8s.io/client-go/discovery"
 
 	"metacontroller/pkg/apis/metacontroller/v1alpha1"
-	mclisters "metacontroller/pkg/client/generated/lister/metacontroller/v1alpha1"
-	"metacontroller/pkg/controller/common"
+	dynamicclientset "metacontroller/pkg/dynamic/clientset"
+	dynamicdiscovery "metacontroller/pkg/dynamic/discovery"
 	dynamicinformer "metacontroller/pkg/dynamic/informer"
 	vh "metacontroller/pkg/internal/verifh"
+	sim "metacontroller/pkg/internal/verifsim"
+	"metacontroller/pkg/logging"
 )
 
-// ======================= flavour specific: composite ===========================
+// ---- world helpers (as in the composite package's zz_verif_world_test.go) ----
 
-const c20Flavor = "Composite"
-const c20Prop = "C20"
-
-// a composite sync without a sync hook is a no-op, so every history may run in parallel
-const c20NosyncAlone = false
-
-// c20Client is the k8sClient of the Metacontroller: Get for the two types the
-// Reconcile loop reads; every other method is absent (nil embedded interface).
-type c20Client struct {
-	client.Client
-	mu      sync.Mutex
-	objs    map[string]*v1alpha1.CompositeController
-	crds    map[string]*apiextensionsv1.CustomResourceDefinition
-	failGet map[string]bool
+var simResources = []sim.Resource{
+	{Group: "ctl.example.com", Version: "v1", Resource: "things", Kind: "Thing", Namespaced: true, HasStatus: true},
+	{Group: "ctl.example.com", Version: "v1", Resource: "clusterthings", Kind: "ClusterThing", Namespaced: false, HasStatus: true},
+	{Group: "", Version: "v1", Resource: "pods", Kind: "Pod", Namespaced: true, HasStatus: true},
+	{Group: "apps.example.com", Version: "v1", Resource: "widgets", Kind: "Widget", Namespaced: true, HasStatus: false},
+	{Group: "", Version: "v1", Resource: "namespaces", Kind: "Namespace", Namespaced: false, HasStatus: true},
+	{Group: "metacontroller.k8s.io", Version: "v1alpha1", Resource: "controllerrevisions", Kind: "ControllerRevision", Namespaced: true, HasStatus: false},
 }
 
-func (c *c20Client) Get(ctx context.Context, key client.ObjectKey, obj client.Object, opts ...client.GetOption) error {
-	c.mu.Lock()
-	defer c.mu.Unlock()
-	switch o := obj.(type) {
-	case *v1alpha1.CompositeController:
-		if c.failGet[key.Name] {
-			return apierrors.NewInternalError(fmt.Errorf("simulated read failure"))
-		}
-		if cc, ok := c.objs[key.Name]; ok {
-			cc.DeepCopyInto(o)
-			return nil
-		}
-		return apierrors.NewNotFound(schema.GroupResource{Group: "metacontroller.k8s.io", Resource: "compositecontrollers"}, key.Name)
-	case *apiextensionsv1.CustomResourceDefinition:
-		if crd, ok := c.crds[key.Name]; ok {
-			crd.DeepCopyInto(o)
-			return nil
-		}
-		return apierrors.NewNotFound(schema.GroupResource{Group: "apiextensions.k8s.io", Resource: "customresourcedefinitions"}, key.Name)
-	}
-	return fmt.Errorf("c20Client: unexpected type %T", obj)
-}
-
-// c20Host wraps the real Metacontroller of this package.
-type c20Host struct {
-	mc  *Metacontroller
-	cli *c20Client
-}
-
-func c20NewHost(w *cworld) *c20Host {
-	cli := &c20Client{objs: map[string]*v1alpha1.CompositeController{}, crds: map[string]*apiextensionsv1.CustomResourceDefinition{}, failGet: map[string]bool{}}
-	revIndexer := cache.NewIndexer(cache.MetaNamespaceKeyFunc, cache.Indexers{cache.NamespaceIndex: cache.MetaNamespaceIndexFunc})
-	mc := &Metacontroller{
-		k8sClient:         cli,
-		resources:         w.resources,
-		dynClient:         w.dynClient,
-		dynInformers:      dynamicinformer.NewSharedInformerFactory(w.dynClient, time.Hour),
-		eventRecorder:     vh.NoopRecorder{},
-		mcClient:          w.mcClient,
-		revisionLister:    mclisters.NewControllerRevisionLister(revIndexer),
-		parentControllers: map[string]*parentController{},
-		numWorkers:        1,
-		ssaOptions:        &common.ApplyOptions{FieldManager: "metacontroller", Strategy: common.ApplyStrategyDynamicApply},
-		logger:            logr.Discard(),
-	}
-	return &c20Host{mc: mc, cli: cli}
-}
-
-func (h *c20Host) reconcile(realName string) error {
-	_, err := h.mc.Reconcile(context.Background(), reconcile.Request{NamespacedName: types.NamespacedName{Name: realName}})
-	return err
-}
-
-func (h *c20Host) factory() *dynamicinformer.SharedInformerFactory { return h.mc.dynInformers }
-
-// instances: real name -> (identity of the instance value, resync marker of its spec)
-func (h *c20Host) instances() map[string]c20InstInfo {
-	out := map[string]c20InstInfo{}
-	for n, pc := range h.mc.parentControllers {
-		info := c20InstInfo{ptr: uintptr(unsafe.Pointer(pc)), obj: pc}
-		if pc.cc.Spec.ResyncPeriodSeconds != nil {
-			info.specID = int(*pc.cc.Spec.ResyncPeriodSeconds) - c20ResyncBase
-		}
-		out[n] = info
-	}
-	return out
-}
-
-func (h *c20Host) setFail(realName string, fail bool) {
-	h.cli.mu.Lock()
-	defer h.cli.mu.Unlock()
-	h.cli.failGet[realName] = fail
-}
-
-func (h *c20Host) remove(realName string) {
-	h.cli.mu.Lock()
-	defer h.cli.mu.Unlock()
-	delete(h.cli.objs, realName)
-}
-
-// apply stores the controller object built from s and sets what the CRD lookup will see.
-func (h *c20Host) apply(realName, short string, s *c20Spec, crd string, touch int) {
-	cc := &v1alpha1.CompositeController{
-		TypeMeta:   metav1.TypeMeta{APIVersion: "metacontroller.k8s.io/v1alpha1", Kind: "CompositeController"},
-		ObjectMeta: metav1.ObjectMeta{Name: realName, Labels: map[string]string{"touch": strconv.Itoa(touch)}, Generation: int64(s.ID)},
-	}
-	p := s.Parents[0]
-	cc.Spec.ParentResource.APIVersion = p.APIVersion
-	cc.Spec.ParentResource.Resource = p.Resource
-	cc.Spec.ParentResource.LabelSelector = c20Selector(short, p.BadSelector)
-	gs := true
-	cc.Spec.GenerateSelector = &gs
-	rs := int32(c20ResyncBase + s.ID)
-	cc.Spec.ResyncPeriodSeconds = &rs
-	for _, k := range s.Children {
-		rule := v1alpha1.CompositeControllerChildResourceRule{}
-		rule.APIVersion = k.APIVersion
-		rule.Resource = k.Resource
-		if k.Strategy != "" {
-			rule.UpdateStrategy = &v1alpha1.CompositeControllerChildUpdateStrategy{Method: v1alpha1.ChildUpdateMethod(k.Strategy)}
-		}
-		cc.Spec.ChildResources = append(cc.Spec.ChildResources, rule)
-	}
-	if !s.NoHooks {
-		cc.Spec.Hooks = &v1alpha1.CompositeControllerHooks{
-			Sync:      c20Hook(realName, s.ID, "sync", s.Sync),
-			Finalize:  c20Hook(realName, s.ID, "finalize", s.Finalize),
-			Customize: c20Hook(realName, s.ID, "customize", s.Customize),
+func resByResource(apiVersion, resource string) *sim.Resource {
+	for i := range simResources {
+		r := &simResources[i]
+		if r.APIVersion() == apiVersion && r.Resource == resource {
+			return r
 		}
 	}
-	h.cli.mu.Lock()
-	defer h.cli.mu.Unlock()
-	h.cli.objs[realName] = cc
-	// the parent's CRD as the lookup will find it
-	gv, err := schema.ParseGroupVersion(p.APIVersion)
+	return nil
+}
+
+var hookTransport = &vh.HookTransport{}
+var hookOnce sync.Once
+
+func installHookTransport() {
+	hookOnce.Do(func() {
+		http.DefaultTransport = hookTransport
+		logging.Logger = logr.Discard()
+	})
+}
+
+// cworld is one simulated cluster with the clients the controllers use.
+type cworld struct {
+	srv       *sim.Server
+	resources *dynamicdiscovery.ResourceMap
+	dynClient *dynamicclientset.Clientset
+}
+
+func newWorld() *cworld {
+	installHookTransport()
+	srv := sim.NewServer(simResources)
+	cfg := srv.RestConfig()
+	resources := dynamicdiscovery.NewResourceMap(discovery.NewDiscoveryClientForConfigOrDie(cfg))
+	resources.Start(time.Hour)
+	for i := 0; !resources.HasSynced(); i++ {
+		if i > 5000 {
+			panic("discovery never synced")
+		}
+		time.Sleep(time.Millisecond)
+	}
+	dynClient, err := dynamicclientset.New(cfg, resources)
 	if err != nil {
-		return
+		panic(err)
 	}
-	crdName := p.Resource + "." + gv.Group
-	switch crd {
-	case "missing":
-		delete(h.cli.crds, crdName)
-	default:
-		ver := apiextensionsv1.CustomResourceDefinitionVersion{Name: gv.Version, Served: true, Storage: true}
-		if crd != "nostatus" {
-			ver.Subresources = &apiextensionsv1.CustomResourceSubresources{Status: &apiextensionsv1.CustomResourceSubresourceStatus{}}
-		}
-		h.cli.crds[crdName] = &apiextensionsv1.CustomResourceDefinition{
-			ObjectMeta: metav1.ObjectMeta{Name: crdName},
-			Spec: apiextensionsv1.CustomResourceDefinitionSpec{Group: gv.Group,
-				Versions: []apiextensionsv1.CustomResourceDefinitionVersion{ver}},
-		}
-	}
+	return &cworld{srv: srv, resources: resources, dynClient: dynClient}
 }
 
-// stopAll stops whatever still runs (end of a case).
-func (h *c20Host) stopAll() {
-	h.cli.mu.Lock()
-	h.cli.objs = map[string]*v1alpha1.CompositeController{}
-	h.cli.failGet = map[string]bool{}
-	h.cli.mu.Unlock()
-	names := []string{}
-	for n := range h.mc.parentControllers {
-		names = append(names, n)
-	}
-	for _, n := range names {
-		func() {
-			defer func() { _ = recover() }()
-			_ = h.reconcile(n)
-		}()
-	}
+func (w *cworld) close() {
+	w.resources.Stop()
+	w.srv.Close()
 }
-
-// the hook answer of a sync on behalf of instance by
-func c20SyncAnswer(by string) []byte {
-	body, _ := k8sjson.Marshal(map[string]interface{}{"status": map[string]interface{}{"by": by}, "children": []interface{}{}})
-	return body
-}
-
-// who wrote: the marker an API write of a sync carries
-func c20WriteBy(body interface{}) string {
-	m, _ := body.(map[string]interface{})
-	st, _ := m["status"].(map[string]interface{})
-	by, _ := st["by"].(string)
-	return by
-}
-
-type c20World = cworld
-
-func c20NewWorld() *c20World { return newWorld() }
-
-// crd classes a composite event can carry
-var c20BadCrds = []string{"missing", "nostatus"}
 
 // ================================ generic ======================================
 
@@ -1549,5 +1412,3 @@ func c20Cap(n int) int {
 }
 
 func c20Sequential() bool { return os.Getenv("VERIF_C20_SEQ") == "1" }
-
-func TestVerif_C20(t *testing.T) { c20Main(t) }
